@@ -737,6 +737,50 @@ def h_touch(world, seed):
     return {"outcome": "ack", "edits": done}
 
 
+MEMBER_FIELD = {
+    "RecordingSet": "recordings",
+    "Dataset": "recordings",
+    "AnnotationSet": "clip_annotations",
+    "AnnotationProject": "clip_annotations",
+    "EvaluationSet": "clip_annotations",
+    "PredictionSet": "clip_predictions",
+    "ModelRun": "clip_predictions",
+    "Evaluation": "clip_evaluations",
+}
+
+
+def h_merge(first, second, handle, cut, deep):
+    """Build a new collection from parts of two loaded ones (or of one and
+    deep copies of its members): the same identifiers are then reached
+    through equal but distinct Python objects, as after merging the work of
+    two annotators or two partial exports."""
+    a = OBJECTS.get(first)
+    b = OBJECTS.get(second)
+    if a is None or b is None or _class_name(a) != _class_name(b):
+        return {"outcome": "skipped"}
+    field = MEMBER_FIELD.get(_class_name(a))
+    if field is None:
+        return {"outcome": "skipped"}
+    left = list(getattr(a, field))
+    right = list(getattr(b, field))
+    if not left or len(left) != len(right):
+        return {"outcome": "skipped"}
+    k = cut % (len(left) + 1)
+    tail = right[k:]
+    if deep:
+        tail = [m.model_copy(deep=True) for m in tail]
+    members = left[:k] + tail
+    try:
+        # same constructor arguments as the first collection, new members
+        kwargs = {f: getattr(a, f) for f in type(a).model_fields}
+        kwargs[field] = members
+        new = type(a)(**kwargs)
+    except Exception as exc:
+        return _outcome_of(exc)
+    OBJECTS[handle] = new
+    return {"outcome": "value", **describe(new)}
+
+
 def h_forget(handle):
     OBJECTS.pop(handle, None)
     return {"outcome": "ack"}
@@ -749,6 +793,7 @@ HANDLERS = {
     "load": h_load,
     "forget": h_forget,
     "touch": h_touch,
+    "merge": h_merge,
 }
 
 
@@ -1106,3 +1151,13 @@ def a_scribble(handle):
     except Exception as exc:
         return _outcome_of(exc)
     return {"outcome": "ack"}
+
+
+@register("a_again")
+def a_again(handle):
+    """Return, once more, an array an earlier call produced (is it still the
+    array that call returned?)."""
+    arr = ARRAYS.get(handle)
+    if arr is None:
+        return {"outcome": "raised", "exc": "KeyError", "msg": "no such array"}
+    return _array_payload(arr, with_data=True)
